@@ -2,6 +2,7 @@ SPECIFICATION Spec
 CONSTANTS
   Families = {"sl", "nldf_j", "nldf_i", "nldf_ij", "nldf_k", "sdmx", "nldf_j+sdmx"}
   Interps = {"onsite_direct", "onsite_spline"}
+  NlcFamilies = {"sl", "nldf_j", "sdmx"}
 INVARIANT NoNumbersWhenUnsupported
 PROPERTY GradientOnlyAfterSCF
 INVARIANT Emit
